@@ -82,6 +82,14 @@ Definition checker (amp we wn e n : R) : R :=
 Definition checker_default (amp w e_ s n_ e n : R) : R :=
   checker amp ((e_ - w) / 2) ((n_ - s) / 2) e n.
 
+(** the w_east / w_north options: each direction defaults INDEPENDENTLY of the other
+    (properties w_east_ and w_north_) *)
+Definition wavelength (given : option R) (lo hi : R) : R :=
+  match given with Some x => x | None => (hi - lo) / 2 end.
+
+Definition checker_opt (amp w e_ s n_ : R) (we wn : option R) (e n : R) : R :=
+  checker amp (wavelength we w e_) (wavelength wn s n_) e n.
+
 (** ** predictions as the code's accumulation over forces (real-valued) *)
 Fixpoint spline_predict (e n md : R) (forces : list (R * R * R)) : R :=
   match forces with
